@@ -200,6 +200,7 @@ type found struct {
 	Detail    string `json:"detail"`
 	Replay    string `json:"replay"`
 	Run       int64  `json:"run"`
+	From      int64  `json:"-"` // first run of the worker that found it
 	race      bool   // found by (and replayable with) the race-detector build
 	isRace    bool   // the violation is a race report
 	crash     bool   // the run killed the worker process inside the code under test
@@ -589,6 +590,7 @@ func check(id, tier string) int {
 				return
 			}
 			for k := range results[i].Violations {
+				results[i].Violations[k].From = j.from
 				results[i].Violations[k].race = j.race
 				results[i].Violations[k].isRace = j.race && results[i].Violations[k].Signature == "race"
 			}
@@ -664,6 +666,7 @@ func check(id, tier string) int {
 	reported := map[string]bool{}
 	nviol := 0
 	var knownHit []string
+	var unreproduced []string
 	for _, v := range all {
 		bin := sc.plain
 		if v.race {
@@ -678,12 +681,33 @@ func check(id, tier string) int {
 			code = 3 // confirmed when it was found: hangs() re-executed it alone
 		} else if v.crash {
 			if crashSignature(errOut) != v.Signature {
-				fail2("a worker crash did not reproduce when run %d was re-executed from %s: %s", v.Run, v.Replay, tail(errOut, 1500))
+				unreproduced = append(unreproduced, fmt.Sprintf("worker crash at run %d (%s) did not happen again when the run was re-executed alone from %s", v.Run, v.Signature, v.Replay))
+				continue
 			}
 			code = 3
 		}
 		if code != 3 {
-			fail2("a violation did not reproduce when its replay file %s was run in a fresh process (nondeterminism in the harness): %s %s", v.Replay, out, tail(errOut, 2000))
+			// Believed only if it happens again in a fresh process. Something that
+			// does not is never reported as a violation; it is harness trouble (exit 2)
+			// unless other violations of this run do reproduce, in which case those are
+			// reported and this one is listed in the evidence.
+			// the code under test may carry state from one run to the next (a package
+			// level variable): re-execute the worker's runs up to this one, in order
+			rfile := strings.TrimSuffix(v.Replay, ".json") + "-range.json"
+			ok := false
+			if !v.isRace && v.From >= 0 && v.Run >= v.From {
+				if _, err := runCmd(bin, "-prop", id, "-seed", strconv.FormatInt(seed, 10), "-tier", tier, "-from", strconv.FormatInt(v.From, 10), "-to", strconv.FormatInt(v.Run+1, 10), "-mkrange", v.Signature, "-outfile", rfile); err == nil {
+					if c2, _, _ := replayOnce(bin, id, rfile, false); c2 == 3 {
+						ok = true
+						v.Replay = rfile
+						v.Detail += fmt.Sprintf(" [reproduces only when runs %d..%d are re-executed in order in one process: the code under test carries state from run to run]", v.From, v.Run)
+					}
+				}
+			}
+			if !ok {
+				unreproduced = append(unreproduced, fmt.Sprintf("%s (%s) did not reproduce in a fresh process: %s", v.Signature, v.Replay, firstN(out, 300)))
+				continue
+			}
 		}
 		sig := v.Signature
 		if v.isRace {
@@ -713,6 +737,13 @@ func check(id, tier string) int {
 		exit = 1
 		fmt.Printf("VIOLATION property=%s replay=%s\n", id, v.Replay)
 		fmt.Printf("  signature: %s\n  detail: %s\n", sig, firstN(v.Detail, 1500))
+	}
+
+	if len(unreproduced) > 0 && nviol == 0 && len(knownHit) == 0 {
+		fail2("%d reported violation(s) did not reproduce when re-executed in a fresh process (state carried from one run to the next inside a worker, or nondeterminism in the harness); nothing is believed:\n  %s", len(unreproduced), strings.Join(unreproduced, "\n  "))
+	}
+	for _, u := range unreproduced {
+		fmt.Printf("verifsim: note: not reproduced, not reported: %s\n", u)
 	}
 
 	// 5. evidence
